@@ -1,1 +1,3 @@
 import XvcGit.Model
+import XvcGit.Lemmas
+import XvcGit.Props
